@@ -25,6 +25,13 @@ Theorem C02_parse_eq_ref : forall c s,
 Proof. exact parse_eq_ref_current. Qed.
 Print Assumptions C02_parse_eq_ref.
 
+(* ... and for EVERY frame length: the 65536 bound above is needed only by the original IP6.IsValid (uint16 wrap of
+   PayloadLen+40); with the repaired validator nothing but "bytes are < 256" and "len <= cap" is assumed. *)
+Theorem C02_parse_eq_ref_full : forall c s,
+  c_fx c = current_fixes -> wf s -> bytes_ok (view s) -> agrees (parse c s) (ref_decode (view s)).
+Proof. exact parse_eq_ref_full. Qed.
+Print Assumptions C02_parse_eq_ref_full.
+
 (* ==== History and the variant machinery (kept: the model still carries the original validators) ============== *)
 (* The full statement "forall c s, wf s -> agrees (parse c s) (ref_decode (view s))" is FALSE for the code
    as it is: one witness per recorded defect class (known_findings.txt, property C02).  The three classes
